@@ -167,6 +167,7 @@ func execC10(c CaseC10) *Outcome {
 		}
 	}
 	// let the mixed announcements run to rest, releasing parked fetches in the drawn order
+	restedAfterMixed := false
 	deadline := time.Now().Add(claimTimeout)
 	for {
 		if c.Gated && len(pv.Parked()) > 0 {
@@ -174,6 +175,7 @@ func execC10(c CaseC10) *Outcome {
 			continue
 		}
 		if cl.W.WaitQuiescent([]iface.Store{v}, nil, 50*time.Millisecond) && len(pv.Parked()) == 0 {
+			restedAfterMixed = true
 			break
 		}
 		if time.Now().After(deadline) {
@@ -186,6 +188,13 @@ func execC10(c CaseC10) *Outcome {
 	for h := range env.hostile {
 		if pv.Fetched(mustCid(h)) {
 			fetchedRejected = true
+		}
+	}
+	if restedAfterMixed {
+		// at rest after the mixed announcements: whatever the replica merged of them is visible (its view is the
+		// replay of its log) and nothing rejected is in it - a later batch would rebuild a stale view and hide it
+		if err := env.victimClean(); err != nil {
+			return fail("at rest after the mixed announcements %s: %v", annSummary(c.Anns), err)
 		}
 	}
 
@@ -205,11 +214,19 @@ func execC10(c CaseC10) *Outcome {
 		}
 		return nil
 	}
+	rested := false
 	for k := 0; k < 2; k++ {
 		if err := announceHeads(); err != nil {
 			return fail("harness: %v", err)
 		}
-		cl.W.WaitQuiescent([]iface.Store{v}, nil, 5*time.Second)
+		rested = cl.W.WaitQuiescent([]iface.Store{v}, nil, 5*time.Second)
+	}
+	if rested {
+		// what the replica holds by now must be visible, not only held: its view is the replay of its log
+		// (the newer write below would rebuild the view and hide a stale one)
+		if err := env.victimClean(); err != nil {
+			return fail("after mixed announcements %s and two honest re-announcements: %v", annSummary(c.Anns), err)
+		}
 	}
 	if _, err := env.honestWrite(ctx, 0, 1); err != nil {
 		return fail("harness: %v", err)
